@@ -406,6 +406,10 @@ def run(ctx):
         outcomes.add((st, "ignored" if ps["ignored"] else "-"))
     if len(outcomes) < 6:
         raise core.HarnessError("vacuous: %d distinct outcomes" % len(outcomes))
+    # hostile TLS messages with valid MACs from a key-holding QUIC-level adversary
+    from checks import c05_tls
+
+    c05_tls.run_tls(ctx)
     ctx.sample({"state": "server_connected", "input": "NEW_CONNECTION_ID@1rtt", "payload_hex": "18020008" + "02" * 8 + "00" * 16})
     ctx.sample({"state": "server_fresh", "input": "raw:fb40_len20"})
     ctx.cov["rule"] = (
@@ -425,6 +429,10 @@ def run(ctx):
 
 def replay(ctx, obj):
     rp = obj["replay"]
+    if rp.get("part") == "tls":
+        from checks import c05_tls
+
+        return c05_tls.replay_tls(ctx, obj)
     st = rp["state"]
     bot = make_bot(st)
     try:
